@@ -18,6 +18,41 @@ CLAIMED = {
             "Trusts the VC generator, the solvers; 32-bit view obtained by type-checking the tree with GOARCH=386; "
             "monotonicity of decimal value under appending digits is a stated arithmetic fact.",
             "deductive verification: loop invariants over a recursive spec function (fuel-bounded unfolding), z3/cvc5"),
+
+    "C02": ("proof",
+            "Skeleton-mode contract proof over the real serveConnCounted: a ghost flag tracks whether bytes of the current framed body may remain on the wire; "
+            "the loop invariant says it is false whenever the next request head is read, on every path (streamed bodies, rejected Expect: 100-continue, errors).",
+            "Trusts the ghost effects declared for callees (listed in the evidence), the VC generator and the solvers; byte-exact consumption by the body readers is assumed here.",
+            "deductive verification in skeleton mode: exact control flow + scalar locals, declared ghost effects for callees, loop invariant discharged by z3/cvc5"),
+    "C10": ("proof",
+            "Contract proof over serveConnCounted, ServeConn and workerFunc: the response carries Connection: close exactly when connectionClose is set, every listed reason sets it, "
+            "the loop never continues after a close was sent, HTTP/1.0 keep-alive responses get the header, and callers close the connection unless it was hijacked.",
+            "Trusts declared ghost effects of callees, the VC generator, the solvers; client side and header byte format not decided.",
+            "deductive verification in skeleton mode with ghost state for what was sent"),
+    "C11": ("proof",
+            "Contract proof over serveConnCounted: a response is only written for a request whose handler ran or that was itself rejected; per-request decisions are reset each iteration; "
+            "Request.Reset and Response.Reset are reached on every path back to the loop head.",
+            "Trusts declared ghost effects of callees; what the Reset methods reset is not under contract yet.",
+            "deductive verification in skeleton mode: loop invariants over ghost dirty flags"),
+    "C14": ("proof",
+            "Contract proof that every ConnState call in serveConnCounted, ServeConn and workerFunc is a legal transition of the documented state machine, StateNew comes first, "
+            "exactly one terminal state follows, and StateActive is only reported after a byte was seen (one recorded known finding).",
+            "Trusts declared ghost effects (bufio.Reader.Peek, acquireByteReader); cross-goroutine hand-off not decided.",
+            "deductive verification in skeleton mode: ghost state machine, precondition at each hook call"),
+    "C17": ("proof",
+            "Contract proof over serveConnCounted, ServeConn and hijackConnHandler: the response is written and flushed before the hijack goroutine starts, reader/writer are handed over (not released), "
+            "the server reports errHijacked only when the handler was started, the connection is closed after the handler unless KeepHijackedConns, the ctx is released once.",
+            "Trusts declared ghost effects; the doc-stated exception (no hijack when Connection: close) is part of the contract.",
+            "deductive verification in skeleton mode: ghost flags wrote/flushed/hijackStarted"),
+    "C32": ("proof",
+            "All eight lookup tables (read from the constants of the current tree) equal their defining predicates for every byte value (ground instances, exhaustive); "
+            "normalizeHeaderKeyValidated equals the positional canonical-form spec for all inputs.",
+            "Predicates written from RFC 3986 2.3 / RFC 9110 tchar, field-vchar; agreement with net/textproto and html is external.",
+            "deductive verification: exhaustive ground lemma + quantified loop invariant"),
+    "C35": ("proof",
+            "Skeleton contract proof over serveConnCounted: a ghost flag 'multipart temp files may exist' is cleared by Request.Reset/releaseCtx on every path before the next request head is read and before return (hijack/timeout excepted).",
+            "Trusts that Request.Reset removes multipart files (ResetBody -> RemoveMultipartFormFiles, mime/multipart external); round trip not decided.",
+            "deductive verification in skeleton mode: loop invariant over a ghost flag"),
 }
 
 NOT_APPLICABLE = {
